@@ -59,8 +59,6 @@ Lemma all_nonneg_vsq (l : list R) : all_nonneg (vsq l).
 Proof. intros x Hx. apply in_map_iff in Hx as (y & <- & _). numR. nra. Qed.
 
 (** ** final value *)
-Lemma last_cons_ne {A} (a : A) l d : l <> [] -> last (a :: l) d = last l d.
-Proof. destruct l; [congruence|reflexivity]. Qed.
 Lemma last_cumsum_from acc (l : list R) : l <> [] -> last (cumsum_from acc l) 0 = acc + nsum l.
 Proof.
   revert acc; induction l as [|x r IH]; intros acc Hl; [congruence|].
